@@ -22,6 +22,7 @@ import (
 
 	"github.com/sirupsen/logrus"
 
+	intdataplane "github.com/projectcalico/calico/felix/dataplane/linux"
 	"github.com/projectcalico/calico/felix/environment"
 	"github.com/projectcalico/calico/felix/generictables"
 	"github.com/projectcalico/calico/felix/ipsets"
@@ -537,6 +538,10 @@ type gtier struct {
 	// independently per direction, as groupPolicies does)
 	groupsIn, groupsOut []*ggroup
 	groups              []*ggroup // = the rendered direction's groups (set by buildCase)
+	// when the groups were formed by the REAL endpointManager.groupTieredPolicy: its PolicyGroup values (parallel to
+	// groupsIn / groupsOut) and, per direction, the Coq text "(input, groups)" of the grouping correspondence
+	realIn, realOut []*rules.PolicyGroup
+	groupings       []string
 }
 type gprofile struct {
 	name    string
@@ -583,11 +588,80 @@ type caseOpts struct {
 	filterAllowReturn bool
 	disableCtInvalid  bool
 	profilePass       bool
-	extraPkts         []packet // probe packets a layout wants evaluated in addition to the derived ones
+	qos               *proto.QoSControls // workload endpoints only
+	extraPkts         []packet           // probe packets a layout wants evaluated in addition to the derived ones
+}
+
+// realGroupTier forms the tier's groups with the real endpointManager.groupTieredPolicy: every policy gets a
+// selector (runs of equal selectors, sometimes an earlier selector again further down), the tier goes in as the
+// proto.TierInfo the calculation graph sends, and the TierPolicyGroups that come back are what the renderer gets.
+func realGroupTier(r *rng, tr *gtier, pols []*gpolicy, splitChance int) {
+	selectors := map[types.PolicyID]string{}
+	selID := map[string]int{}
+	byID := map[types.PolicyID]int{}
+	cur := 0
+	nSel := 0
+	for i, p := range pols {
+		if i == 0 || r.chance(splitChance) {
+			nSel++
+			cur = nSel
+			if nSel > 2 && r.chance(20) {
+				cur = 1 + r.intn(nSel-1) // a selector seen before, not necessarily adjacent
+			}
+		}
+		p.selector = cur
+		sel := fmt.Sprintf("role == 'sel%d'", cur)
+		selectors[p.id] = sel
+		selID[sel] = cur
+		byID[p.id] = i
+	}
+	ti := &proto.TierInfo{Name: tr.name, DefaultAction: tr.defaultAction}
+	for _, p := range pols {
+		if p.hasIn {
+			ti.IngressPolicies = append(ti.IngressPolicies, types.PolicyIDToProto(p.id))
+		}
+		if p.hasOut {
+			ti.EgressPolicies = append(ti.EgressPolicies, types.PolicyIDToProto(p.id))
+		}
+	}
+	out := intdataplane.VerifGroupTieredPolicy(selectors, []*proto.TierInfo{ti})
+	if len(out) != 1 || out[0].Name != tr.name || out[0].DefaultAction != tr.defaultAction {
+		panic(fmt.Sprintf("groupTieredPolicy returned %d tiers / changed name or default action", len(out)))
+	}
+	conv := func(real []*rules.PolicyGroup, input []*proto.PolicyID) ([]*ggroup, string) {
+		var gs []*ggroup
+		var implCoq []string
+		for _, pg := range real {
+			g := &ggroup{}
+			var idx []string
+			for _, id := range pg.Policies {
+				i, ok := byID[*id]
+				if !ok {
+					panic("groupPolicies returned an unknown policy id")
+				}
+				g.pols = append(g.pols, pols[i])
+				idx = append(idx, fmt.Sprint(i))
+			}
+			gs = append(gs, g)
+			implCoq = append(implCoq, "["+strings.Join(idx, "; ")+"]")
+		}
+		var in []string
+		for _, id := range input {
+			pid := types.ProtoToPolicyID(id)
+			in = append(in, fmt.Sprintf("(%d, %d)", selID[selectors[pid]], byID[pid]))
+		}
+		return gs, fmt.Sprintf("([%s], [%s])", strings.Join(in, "; "), strings.Join(implCoq, "; "))
+	}
+	var gi, ge string
+	tr.groupsIn, gi = conv(out[0].IngressPolicies, ti.IngressPolicies)
+	tr.groupsOut, ge = conv(out[0].EgressPolicies, ti.EgressPolicies)
+	tr.realIn, tr.realOut = out[0].IngressPolicies, out[0].EgressPolicies
+	tr.groupings = []string{gi, ge}
 }
 
 func genEndpoint(r *rng, u *universe, o *caseOpts) ([]*gtier, []*gprofile, []string) {
 	var tags []string
+	realTiers := 0
 	nT := []int{0, 1, 1, 2, 2, 3, 3, 4}[r.intn(8)]
 	var tiers []*gtier
 	polN := 0
@@ -712,8 +786,18 @@ func genEndpoint(r *rng, u *universe, o *caseOpts) ([]*gtier, []*gprofile, []str
 			}
 			return out
 		}
-		tr.groupsIn, tr.groupsOut = group(true), group(false)
+		if r.chance(60) {
+			realGroupTier(r, tr, pols, splitChance)
+			realTiers++
+		} else {
+			tr.groupsIn, tr.groupsOut = group(true), group(false)
+		}
 		tiers = append(tiers, tr)
+	}
+	if realTiers > 0 {
+		tags = append(tags, "groups:real-groupTieredPolicy")
+	} else if len(tiers) > 0 {
+		tags = append(tags, "groups:arbitrary-partition")
 	}
 	nPr := []int{0, 1, 1, 2, 3}[r.intn(5)]
 	var profs []*gprofile
@@ -804,6 +888,9 @@ func buildCase(r *rng, o *caseOpts, u *universe, tiers []*gtier, profs []*gprofi
 		}
 		for k, g := range t.groupsIn {
 			pg := mkGroup(g, rules.PolicyDirectionInbound, k)
+			if t.realIn != nil {
+				pg = t.realIn[k]
+			}
 			tpg.IngressPolicies = append(tpg.IngressPolicies, pg)
 			if !o.egress {
 				allGroups = append(allGroups, grp{g, pg})
@@ -811,6 +898,9 @@ func buildCase(r *rng, o *caseOpts, u *universe, tiers []*gtier, profs []*gprofi
 		}
 		for k, g := range t.groupsOut {
 			pg := mkGroup(g, rules.PolicyDirectionOutbound, k)
+			if t.realOut != nil {
+				pg = t.realOut[k]
+			}
 			tpg.EgressPolicies = append(tpg.EgressPolicies, pg)
 			if o.egress {
 				allGroups = append(allGroups, grp{g, pg})
@@ -836,7 +926,7 @@ func buildCase(r *rng, o *caseOpts, u *universe, tiers []*gtier, profs []*gprofi
 	epm := rules.NewEndpointMarkMapper(mc.endpoint, mc.endpoint&(^mc.endpoint+1))
 	switch o.kind {
 	case "wl":
-		cs := renderer.WorkloadEndpointToIptablesChains("cali1234", epm, o.adminUp, tpgs, profIDs, nil)
+		cs := renderer.WorkloadEndpointToIptablesChains("cali1234", epm, o.adminUp, tpgs, profIDs, o.qos)
 		if o.egress {
 			epChain = cs[1]
 		} else {
@@ -1139,7 +1229,15 @@ func buildCase(r *rng, o *caseOpts, u *universe, tiers []*gtier, profs []*gprofi
 	if ctype == "" {
 		ctype = "TNormal"
 	}
-	ecCoq := fmt.Sprintf("(Build_ecfg "+ctype+" %v %s %s %v %s %v %v)", adminUp, fs, allow, !o.disableCtInvalid, vx, ipip, treeProfileFix)
+	qosRate, qosConn := false, false
+	if o.kind == "wl" && o.qos != nil {
+		if o.egress {
+			qosRate, qosConn = o.qos.EgressPacketRate != 0, o.qos.EgressMaxConnections != 0
+		} else {
+			qosRate, qosConn = o.qos.IngressPacketRate != 0, o.qos.IngressMaxConnections != 0
+		}
+	}
+	ecCoq := fmt.Sprintf("(Build_ecfg "+ctype+" %v %s %s %v %s %v %v %v %v)", adminUp, fs, allow, !o.disableCtInvalid, vx, ipip, qosRate, qosConn, treeProfileFix)
 	var setsCoq []string
 	for id := range w.sets {
 		setsCoq = append(setsCoq, fmt.Sprintf("(%d, %s)", id, coqList(w.sets[id], member.coq)))
@@ -1148,9 +1246,13 @@ func buildCase(r *rng, o *caseOpts, u *universe, tiers []*gtier, profs []*gprofi
 	if ver == 6 {
 		vc = "V6"
 	}
-	coq := fmt.Sprintf("(Build_case %s %s %s \"%s\" %s %s [%s] [%s] %s)%%N",
+	var groupings []string
+	for _, t := range tiers {
+		groupings = append(groupings, t.groupings...)
+	}
+	coq := fmt.Sprintf("(Build_case %s %s %s \"%s\" %s %s [%s] [%s] %s [%s])%%N",
 		cfgCoq, ecCoq, vc, in.get(epChain.Name), tiersCoq, profsCoq, strings.Join(setsCoq, "; "), strings.Join(implCoq, "; "),
-		coqList(pkts, func(p packet) string { return p.coq(ver) }))
+		coqList(pkts, func(p packet) string { return p.coq(ver) }), strings.Join(groupings, "; "))
 
 	dir := "ingress"
 	if o.egress {
@@ -1171,6 +1273,12 @@ func buildCase(r *rng, o *caseOpts, u *universe, tiers []*gtier, profs []*gprofi
 	}
 	if nStaged > 0 {
 		tags = append(tags, "has-staged")
+	}
+	if qosRate {
+		tags = append(tags, "qos:packet-rate")
+	}
+	if qosConn {
+		tags = append(tags, "qos:connection-limit")
 	}
 	enforcedIn := func(gs []*ggroup) (n, enf int) {
 		for _, g := range gs {
@@ -1264,6 +1372,12 @@ func checkActionType(a generictables.Action, parsed string) error {
 		want = "(AJump"
 	case iptables.GotoAction, nftables.GotoAction, *iptables.GotoAction, *nftables.GotoAction:
 		want = "(AGoto"
+	case iptables.LimitPacketRateAction:
+		want = "(AMark"
+	case nftables.LimitPacketRateAction:
+		want = "ADrop"
+	case iptables.LimitNumConnectionsAction, nftables.LimitNumConnectionsAction:
+		want = "AReject"
 	case iptables.SetMarkAction, nftables.SetMarkAction, iptables.ClearMarkAction, nftables.ClearMarkAction,
 		iptables.SetMaskedMarkAction, nftables.SetMaskedMarkAction:
 		want = "(AMark"
@@ -1465,6 +1579,22 @@ func main() {
 		} else if k < 45 {
 			o.kind = "hep-mangle"
 			o.egress = false
+		}
+		if o.kind == "wl" && r.chance(35) {
+			q := &proto.QoSControls{}
+			if r.chance(60) {
+				q.IngressPacketRate, q.IngressPacketBurst = int64(1+r.intn(1000)), int64(1+r.intn(50))
+			}
+			if r.chance(60) {
+				q.EgressPacketRate, q.EgressPacketBurst = int64(1+r.intn(1000)), int64(1+r.intn(50))
+			}
+			if r.chance(50) {
+				q.IngressMaxConnections = int64(1 + r.intn(100))
+			}
+			if r.chance(50) {
+				q.EgressMaxConnections = int64(1 + r.intn(100))
+			}
+			o.qos = q
 		}
 		u := newUniverse(o.ver)
 		w := genSets(r, u)
